@@ -13,6 +13,13 @@
 //   - a failed first attempt: every signer's first key-sign broadcast returns a
 //     comm.CommunicationError (optionally a committee member that was left out - SubsetError - joins
 //     the second attempt in place of a signer), then Run is called again on the same objects.
+//   - who is reachable (Offline): the committee members that take no part in the session are offline and
+//     the transport REPORTS a failed delivery the way comm/p2p does (the reachable addressees get the
+//     message, the call returns a comm.CommunicationError naming the unreachable one)
+//   - an abandoned first attempt with ANOTHER subset (resub.go): the attempt is given up after a
+//     CommunicationError on every first broadcast, or after all its messages were lost and nobody made
+//     progress (what monitorSigning ends with a CommunicationError); Run is then called on the same
+//     objects with a subset in which a common relayer has another position among the sorted parties.
 package main
 
 import (
@@ -36,6 +43,9 @@ type signOpts struct {
 	Reader string // "" parked from the start | "late" | "evm"
 	Retry  string // "" | "commerr" | "subset"
 	Inputs int    // processes per relayer sharing its channel (BTC executor: one per transaction input)
+	// the committee members that are not among the session's relayers are offline: a message addressed
+	// to one of them comes back as a comm.CommunicationError (signStage sets member.fc.offline)
+	Offline bool
 }
 
 func (o signOpts) inputs() int {
@@ -61,6 +71,43 @@ type faultComm struct {
 	*c08fakes.Comm
 	mu    sync.Mutex
 	armed map[string]bool
+	// offline: relayers that cannot be reached.  As with comm/p2p's Broadcast (one send per addressee,
+	// all of them attempted, the first error returned) the reachable addressees get the message and the
+	// call returns a comm.CommunicationError for an unreachable one.
+	offline map[peer.ID]bool
+	// lost (by session id): every message of the session is silently lost (the addressees are hung or
+	// partitioned away and the transport does not notice); calls counts them
+	lost  map[string]bool
+	calls map[string]int
+}
+
+func (f *faultComm) setOffline(ps []peer.ID) {
+	f.mu.Lock()
+	f.offline = map[peer.ID]bool{}
+	for _, p := range ps {
+		f.offline[p] = true
+	}
+	f.mu.Unlock()
+}
+
+func (f *faultComm) lose(sid string, on bool) {
+	f.mu.Lock()
+	if f.lost == nil {
+		f.lost, f.calls = map[string]bool{}, map[string]int{}
+	}
+	if on {
+		f.lost[sid] = true
+		f.calls[sid] = 0
+	} else {
+		delete(f.lost, sid)
+	}
+	f.mu.Unlock()
+}
+
+func (f *faultComm) lostCalls(sid string) int {
+	f.mu.Lock()
+	defer f.mu.Unlock()
+	return f.calls[sid]
 }
 
 func (f *faultComm) arm(sid string, on bool) {
@@ -87,6 +134,28 @@ func (f *faultComm) Broadcast(peers peer.IDSlice, msg []byte, t comm.MessageType
 			return &comm.CommunicationError{Peer: to, Err: fmt.Errorf("injected: peer unreachable")}
 		}
 	}
+	f.mu.Lock()
+	if f.lost[sid] {
+		f.calls[sid]++
+		f.mu.Unlock()
+		return nil
+	}
+	var online peer.IDSlice
+	var down peer.ID
+	for _, p := range peers {
+		if f.offline[p] {
+			if down == "" {
+				down = p
+			}
+			continue
+		}
+		online = append(online, p)
+	}
+	f.mu.Unlock()
+	if down != "" {
+		_ = f.Comm.Broadcast(online, msg, t, sid)
+		return &comm.CommunicationError{Peer: down, Err: fmt.Errorf("dial backoff (the peer is offline)")}
+	}
 	return f.Comm.Broadcast(peers, msg, t, sid)
 }
 
@@ -105,6 +174,10 @@ type attempt struct {
 	coord int   // index into members
 	ready []int // members the coordinator has heard "ready" from (it selects threshold+1 of them)
 	fault bool  // every member's first key-sign broadcast of this attempt fails
+	// lost: every message of this attempt is silently lost; once every selected relayer has sent its
+	// first round and waits, the attempt's contexts are cancelled (the attempt is abandoned) and the
+	// next attempt follows whatever Run returned
+	lost bool
 	// arrivals (non-nil: instead of ready): the members whose "ready" messages reach the coordinator, in
 	// order of arrival; the start parameters are computed exactly as Coordinator.initiate computes them:
 	// readyPeers = [coordinator] + arrivals so far, after every arrival Ready(readyPeers) is asked, and
@@ -186,7 +259,7 @@ func (m *member) read(o signOpts, goCh, runsDone <-chan struct{}) {
 }
 
 // runSession runs the attempts one after the other on the members' process objects.
-func runSession(hub *c08fakes.Hub, members []*member, sids []string, plan []attempt, o signOpts, timeout time.Duration) sessionOut {
+func runSession(hub *c08fakes.Hub, members []*member, sids []string, plan []attempt, o signOpts, timeout time.Duration, ecdsa bool) sessionOut {
 	out := sessionOut{}
 	root, cancelRoot := context.WithCancel(context.Background())
 	defer cancelRoot()
@@ -290,11 +363,20 @@ func runSession(hub *c08fakes.Hub, members []*member, sids []string, plan []atte
 		for _, m := range members {
 			for _, sid := range sids {
 				m.fc.arm(sid, at.fault)
+				m.fc.lose(sid, at.lost)
 			}
 		}
 		errCh := make(chan runErr, len(members)*len(sids))
 		n := 0
+		actx, acancel := context.WithCancel(context.Background())
 		for i, m := range members {
+			ctx := m.ctx
+			if at.lost {
+				// an attempt that will be abandoned: its own context below the relayer's
+				c, cancel := context.WithCancel(m.ctx)
+				go func() { <-actx.Done(); cancel() }()
+				ctx = c
+			}
 			for k, p := range m.procs {
 				n++
 				go func(i, k int, m *member, p tss.TssProcess) {
@@ -305,9 +387,43 @@ func runSession(hub *c08fakes.Hub, members []*member, sids []string, plan []atte
 						}
 						errCh <- runErr{i, k, err}
 					}()
-					err = p.Run(m.ctx, i == at.coord, m.ch, params)
+					err = p.Run(ctx, i == at.coord, m.ch, params)
 				}(i, k, m, p)
 			}
+		}
+		if at.lost {
+			// abandon the attempt once every selected relayer has sent its whole first round into the void
+			// (ECDSA: one message per other signer, FROST: one broadcast) - from then on everybody waits
+			need := 1
+			if ecdsa {
+				need = len(out.Signers) - 1
+			}
+			go func(signers []int) {
+				limit := time.After(60 * time.Second)
+				t := time.NewTicker(10 * time.Millisecond)
+				defer t.Stop()
+				for {
+					all := true
+					for _, i := range signers {
+						for _, sid := range sids {
+							all = all && members[i].fc.lostCalls(sid) >= need
+						}
+					}
+					if all {
+						time.Sleep(100 * time.Millisecond)
+						acancel()
+						return
+					}
+					select {
+					case <-t.C:
+					case <-limit:
+						acancel()
+						return
+					case <-actx.Done():
+						return
+					}
+				}
+			}(append([]int(nil), out.Signers...))
 		}
 		errs := make([][]error, len(members))
 		for i, m := range members {
@@ -322,9 +438,10 @@ func runSession(hub *c08fakes.Hub, members []*member, sids []string, plan []atte
 				errs[e.m][e.k] = e.err
 				got++
 				var se *tss.SubsetError
-				if e.err != nil && !retryable(e.err) && !errors.As(e.err, &se) && !hurry {
-					// a process has failed for good (an error tss.Coordinator does not retry, a panic): the
-					// session cannot complete any more; its other processes get a few more seconds
+				if e.err != nil && !errors.As(e.err, &se) && (!retryable(e.err) || a+1 == len(plan)) && !hurry {
+					// a process has failed for good (an error tss.Coordinator does not retry, a panic, or any
+					// failure in the last attempt the scenario provides for): the session cannot complete any
+					// more; its other processes get a few more seconds
 					hurry = true
 					deadline = time.After(8 * time.Second)
 				}
@@ -339,10 +456,26 @@ func runSession(hub *c08fakes.Hub, members []*member, sids []string, plan []atte
 				deadline = time.After(15 * time.Second)
 			}
 		}
+		acancel()
 		for _, m := range members {
 			for _, sid := range sids {
 				m.fc.arm(sid, false)
+				m.fc.lose(sid, false)
 			}
+		}
+		if at.lost && !timedOut && a+1 < len(plan) {
+			// abandoned; whatever the Runs returned (nil after the cancellation, SubsetError for the
+			// relayers that were not selected), the coordinator starts the next attempt
+			sent := true
+			for _, i := range out.Signers {
+				for _, sid := range sids {
+					sent = sent && members[i].fc.lostCalls(sid) > 0
+				}
+			}
+			if !sent {
+				out.Note = fmt.Sprintf("attempt %d: a selected relayer never sent anything; ", a+1)
+			}
+			continue
 		}
 		isSigner := map[int]bool{}
 		for _, i := range out.Signers {
